@@ -136,7 +136,14 @@ def _matches(f, what, replay):
     mt = f.get('match')
     if not mt or not isinstance(replay, dict):
         return False
+    if isinstance(mt, list):
+        return any(_matches(dict(f, match=m), what, replay) for m in mt)
     for k, v in mt.items():
+        if k.endswith('__startswith'):
+            rv = replay.get(k[:-12])
+            if not isinstance(rv, str) or not any(rv.startswith(p) for p in v):
+                return False
+            continue
         if k.endswith('__ge'):
             rv = replay.get(k[:-4])
             if not isinstance(rv, (int, float)) or rv < v:
